@@ -450,11 +450,81 @@ func (fl *Flow) guardedBy(target ast.Node, fact func(Fact) bool, gate func(n ast
 					return s | 1
 				}
 			}
+			// nothing is certain on the false edge of A && B (or the true edge of A || B), but one of the alternatives
+			// holds: the edge guards when each alternative on its own does
+			if alts := fl.edgeAlternatives(b, i); len(alts) > 1 {
+				all := true
+				for _, alt := range alts {
+					hit := false
+					for _, f := range alt {
+						if fact(f) {
+							hit = true
+						}
+					}
+					if !hit {
+						all = false
+					}
+				}
+				if all {
+					return s | 1
+				}
+			}
 			return s
 		}}
 	fl.solve(a)
 	s, ok := fl.before(a, target)
 	return ok && s&1 != 0, ok
+}
+
+// condAlts decomposes a branch condition into alternatives (a disjunction of conjunctions of leaf facts).
+func condAlts(e ast.Expr, branch bool, depth int) [][]Fact {
+	e = ast.Unparen(e)
+	if depth < 6 {
+		switch x := e.(type) {
+		case *ast.UnaryExpr:
+			if x.Op == token.NOT {
+				return condAlts(x.X, !branch, depth+1)
+			}
+		case *ast.BinaryExpr:
+			if x.Op == token.LAND || x.Op == token.LOR {
+				l, r := condAlts(x.X, branch, depth+1), condAlts(x.Y, branch, depth+1)
+				if (x.Op == token.LAND) == branch {
+					// both sides hold: every combination of their alternatives
+					var out [][]Fact
+					for _, a := range l {
+						for _, b := range r {
+							out = append(out, append(append([]Fact{}, a...), b...))
+						}
+					}
+					if len(out) > 16 {
+						return [][]Fact{nil}
+					}
+					return out
+				}
+				return append(l, r...)
+			}
+		}
+	}
+	return [][]Fact{{{E: e, Pos: branch}}}
+}
+
+// edgeAlternatives: the alternatives of which one holds on the edge b -> b.Succs[i] (see condAlts); nil when the
+// block does not end in a boolean condition.
+func (fl *Flow) edgeAlternatives(b *cfg.Block, i int) [][]Fact {
+	if len(b.Succs) != 2 || len(b.Nodes) == 0 {
+		return nil
+	}
+	last, ok := b.Nodes[len(b.Nodes)-1].(ast.Expr)
+	if !ok {
+		return nil
+	}
+	if sw := fl.caseSwitch(b, last); sw != nil && sw.Tag != nil {
+		return nil
+	}
+	if tv, ok := fl.info.Types[last]; !ok || !isBool(tv.Type) {
+		return nil
+	}
+	return condAlts(last, i == 0, 0)
 }
 
 // returnsNonNilError reports whether the last result of ret is syntactically a non-nil error expression.
